@@ -351,8 +351,23 @@ func genC19(r *Rng) *Plan {
 		cfg.Slug = "google"
 	}
 	cfg.Routes = []Route{routeFor(1, nil)}
+	manyHosts := r.Chance(1, 4)
+	if manyHosts {
+		// an upstream that serves many hosts through one rewrite route
+		cfg.Routes = append(cfg.Routes, Route{Service: "dyn", Type: "rewrite", From: `^(.*)\.dyn\.sso\.sim$`, To: "$1.dynback.sim",
+			Backend: []string{"foo.dynback.sim", "bar.dynback.sim", "app1.dynback.sim"}, Options: map[string]any{"allowed_email_domains": []string{"example.com"}}})
+	}
 	p := &Plan{Cfg: cfg, Users: stdUsers, Gen: "signout-" + cfg.Provider}
 	host := cfg.Routes[0].From
+	if manyHosts {
+		// sign-outs on several of its hosts, in some order: each is sent to the authenticator with its own return address
+		p.Gen += "+hosts"
+		hs := []string{"foo.dyn.sso.sim", "bar.dyn.sso.sim", "app1.dyn.sso.sim", "foo.dyn.sso.sim"}
+		r.Shuffle(hs)
+		for _, h := range hs[:r.Range(2, 4)] {
+			p.Steps = append(p.Steps, Step{Op: "get", B: r.Pick("h1", "h2"), Host: h, Target: "/oauth2/sign_out", Follow: r.Pick0(0, 0, 2)})
+		}
+	}
 	p.Steps = append(p.Steps, Step{Op: "login", B: "b1", User: "alice@example.com", Host: host, Target: "/"})
 	// a saved copy of the session (another device, a cookie thief)
 	p.Steps = append(p.Steps, Step{Op: "jar", B: "saved", Sub: "copyfrom", Str: "b1", Name: ProxyCookieName})
@@ -444,6 +459,22 @@ func genC11(r *Rng) *Plan {
 	}
 	p := &Plan{Cfg: cfg, Users: users, Gen: "rules-" + string(rune('0'+mask))}
 	host := cfg.Routes[0].From
+	if mask == 4 && r.Chance(1, 3) {
+		// two people whose addresses share the local part, both in a listed group at login; one is then taken out
+		// of it; their sessions come up for a check in overlapping requests: each gets the verdict a login would give
+		p.Gen += "+twin"
+		g := cfg.Routes[0].Options["allowed_groups"].([]string)[0]
+		p.Users = append(p.Users, UserSpec{Email: "alex@example.com", Verified: true, Groups: []string{g}}, UserSpec{Email: "alex@other.org", Verified: true, Groups: []string{g}})
+		p.Steps = append(p.Steps, Step{Op: "login", B: "x1", User: "alex@example.com", Host: host, Target: "/"})
+		p.Steps = append(p.Steps, Step{Op: "login", B: "x2", User: "alex@other.org", Host: host, Target: "/"})
+		p.Steps = append(p.Steps, Step{Op: "idp", Sub: "setgroups", User: r.Pick("alex@other.org", "alex@example.com"), Groups: []string{"none"}})
+		first, second := "x1", "x2"
+		if r.Chance(1, 2) {
+			first, second = "x2", "x1"
+		}
+		p.Steps = append(p.Steps, Step{Op: "get", B: first, Host: host, Target: "/validation-due", Dt: r.PickDur(cfg.ValidTTL+3*time.Second, cfg.TokenTTL+3*time.Second),
+			Twin: &Step{Op: "get", B: second, Host: host, Target: "/validation-due"}})
+	}
 	for i, u := range users {
 		b := string(rune('a' + i))
 		if mask&4 != 0 && r.Chance(1, 4) {
